@@ -15,3 +15,4 @@ import MypyVerif.Props.C17
 import MypyVerif.Props.C13
 import MypyVerif.Props.C08
 import MypyVerif.Props.C06
+import MypyVerif.Props.C05
